@@ -1,11 +1,19 @@
 (* C01 — rule verdicts equal the documented semantics of clauses, queries and blocks. Pinned statements only.
 
-   The full statement, kept visible (NOT proved here): on the core fragment the model of the implementation refines
-   the documented semantics Spec.v. What is proved are the sentences the statement singles out (the `_partial`
-   theorems); the refinement itself is checked on every run by evaluating Spec inside Coq on the implementation's
-   parsed AST and loaded value and comparing with the implementation's verdicts (tools/gv/props/c01.py). *)
-From GV.Model Require Import SEval Spec CheckSpec.
-From GV.Proofs Require Import StatusProps ClauseProps.
+   The full statement is kept visible as C01_full_statement. It is PROVED (C01_refinement, C01_refinement_memo_free
+   below) for capture-free programs, relative to the values of the "world" of an evaluation (the sub-values of the
+   document and of the literal values of variables that Spec is asked to cover) on which
+     - structs are well formed (as many keys as entries),
+     - the undocumented case-converter key fallback never hits (the recorded deviation of C01, excluded exactly),
+     - `not in` between two lists is coherent (== is an equivalence on the members; fails for NaN),
+   with one direction missing for the evaluator WITH its caches: that an evaluation error of SEval never meets a
+   defined Spec verdict is proved for the memo-free evaluator only (MemoProps relates Done outcomes).
+   RefineExample.v shows the premises satisfiable (okv) and instantiates the theorem on a non-trivial program.
+   The refinement is ALSO checked on every run by evaluating Spec inside Coq on the implementation's parsed AST and
+   loaded value and comparing with the implementation's verdicts (tools/gv/props/c01.py); that is what ties Spec
+   and SEval to the Rust code. *)
+From GV.Model Require Import SEval PEval Spec CheckSpec.
+From GV.Proofs Require Import StatusProps ClauseProps RefineOps RefineProps RefineFile RefineExample.
 
 Definition C01_full_statement : Prop :=
   forall re conv prog doc fuel sfuel,
@@ -71,3 +79,96 @@ Print Assumptions C01_clause_all_spec.
 Theorem C01_clause_some_spec : forall l, clause_some l = PASS <-> In PASS l.
 Proof. exact clause_some_spec. Qed.
 Print Assumptions C01_clause_some_spec.
+
+(* ------------------------------------------------------------------ *)
+(* the refinement *)
+
+(* the model of the implementation (SEval, with the variable memo and the rule-status cache) against the documented
+   semantics: same file status, same status for every rule, and never an answer where the semantics is undefined *)
+Theorem C01_refinement : forall re conv lit_ok prog doc,
+  (forall p ks vals, world lit_ok doc (PMap p ks vals) -> List.length ks = List.length vals) ->
+  (forall p ks vals c k k', world lit_ok doc (PMap p ks vals) -> conv c k = Some k' -> map_get k vals = None -> map_get k' vals = None) ->
+  (forall v r, world lit_ok doc v -> nin_ok re v r) ->
+  forall n m st recs s',
+  nc_prog prog = true ->
+  eval_file re conv prog n doc = Done (st, recs, s') ->
+  match spec_file re lit_ok prog doc m with
+  | SOk (st', table) => st = st' /\ exists rec, recs = [rec] /\ compare_rules table (rule_statuses rec) = None
+  | SUndef => False
+  | SOut => True
+  end.
+Proof. exact refinement. Qed.
+Print Assumptions C01_refinement.
+
+(* the memo-free evaluator (what MemoProps shows SEval computes), errors included: an evaluation error is raised
+   exactly when the semantics is undefined *)
+Theorem C01_refinement_memo_free : forall re conv lit_ok prog doc,
+  (forall p ks vals, world lit_ok doc (PMap p ks vals) -> List.length ks = List.length vals) ->
+  (forall p ks vals c k k', world lit_ok doc (PMap p ks vals) -> conv c k = Some k' -> map_get k vals = None -> map_get k' vals = None) ->
+  (forall v r, world lit_ok doc v -> nin_ok re v r) ->
+  forall k m,
+  match eval_file' re conv prog k doc, spec_file re lit_ok prog doc m with
+  | Done (st, _, _), SOk (st', _) => st = st'
+  | Err _, SOk _ => False
+  | Done _, SUndef => False
+  | _, _ => True
+  end.
+Proof. exact refinement_memo_free. Qed.
+Print Assumptions C01_refinement_memo_free.
+
+(* every entry point, every fuel on both sides: queries (with filters and variables), clauses, blocks, rules *)
+Theorem C01_every_entry_point_refines : forall re conv lit_ok prog doc (G : pv -> Prop),
+  (forall p l x, G (PList p l) -> In x l -> G x) ->
+  (forall p ks vals k x, G (PMap p ks vals) -> In (k, x) vals -> G x) ->
+  (forall p ks vals, G (PMap p ks vals) -> List.length ks = List.length vals) ->
+  (forall p ks vals c k k', G (PMap p ks vals) -> conv c k = Some k' -> map_get k vals = None -> map_get k' vals = None) ->
+  (forall v r, G v -> nin_ok re v r) ->
+  G doc -> (forall v, lit_ok v = true -> G v) ->
+  forall n m, FrameProps.ev_kshape (evalP re conv prog n) /\
+              ev_rel re lit_ok prog doc G (evalP re conv prog n) (Spec.run re lit_ok prog doc m).
+Proof. exact evalP_refines. Qed.
+Print Assumptions C01_every_entry_point_refines.
+
+(* the comparison layer: every binary operator, both polarities, any left-hand selection, a literal right-hand side *)
+Theorem C01_comparisons_refine : forall re o neg lhs svals r l custom sts,
+  Forall2 rel_q lhs svals -> (forall v, In v (selected_values lhs) -> nin_ok re v r) ->
+  cmp_compare re (o, neg) lhs [QLiteral r] = Done (EResult l) ->
+  spec_binary re o neg svals r = SOk sts ->
+  same_verdicts (sts_of (o, neg) custom l) sts.
+Proof. exact binary_refines. Qed.
+Print Assumptions C01_comparisons_refine.
+
+(* incomparable values are a FAIL, never an evaluation error; and the documented checks are never undefined *)
+Theorem C01_comparisons_never_err : forall re o neg lhs rhs e, is_unary o = false -> cmp_compare re (o, neg) lhs rhs <> Err e.
+Proof. exact cmp_compare_no_err. Qed.
+Print Assumptions C01_comparisons_never_err.
+
+(* the unary tests, value by value *)
+Theorem C01_unary_refines : forall o base a x, unary_base o = Some base -> rel_q a x -> rel_ob (base a) (unary_value o x).
+Proof. exact unary_refines. Qed.
+Print Assumptions C01_unary_refines.
+
+(* `not in`: lists of plain scalars satisfy the coherence premise *)
+Theorem C01_notin_premise_for_scalars : forall re l rhsl, forallb scalar_plain l = true -> notin_coherent re l rhsl.
+Proof. exact notin_coherent_scalars. Qed.
+Print Assumptions C01_notin_premise_for_scalars.
+
+(* the premises are satisfiable: every document that passes the decidable check okv, with any program *)
+Theorem C01_refinement_applies : forall doc, okv doc = true -> forall prog n m st recs s',
+  nc_prog prog = true ->
+  eval_file re_ex conv_ex prog n doc = Done (st, recs, s') ->
+  match spec_file re_ex okv prog doc m with
+  | SOk (st', table) => st = st' /\ exists rec, recs = [rec] /\ compare_rules table (rule_statuses rec) = None
+  | SUndef => False
+  | SOut => True
+  end.
+Proof. exact refinement_okv. Qed.
+Print Assumptions C01_refinement_applies.
+
+(* ... and on a concrete program both sides answer: the conclusion is not vacuous *)
+Theorem C01_refinement_instance :
+  okv ex_doc = true /\ nc_prog ex_prog = true /\
+  spec_file re_ex okv ex_prog ex_doc 40 = SOk (PASS, [("sized", PASS); ("named", PASS); ("unused", SKIP)]%string) /\
+  exists recs s', eval_file re_ex conv_ex ex_prog 60 ex_doc = Done (PASS, recs, s').
+Proof. exact (conj ex_doc_ok (conj ex_nc (conj ex_spec ex_impl))). Qed.
+Print Assumptions C01_refinement_instance.
